@@ -181,7 +181,7 @@ def check(run):
              and c["kind"] not in ("census", "source", "sibling") and c.get("class") != 4 and "C12:handshake-call-does-not-return-within-the-timeout" not in (c.get("oracle") or [])]
     for c in cases:
         if c["kind"] == "source" and c.get("err"):
-            run.add_corr_break("G: session.go initProtocol no longer has the modelled shape (timer armed, then the goroutine that selects and runs the initializer, select on result/timer): " + c["err"], brief(c))
+            run.add_corr_break("G: session.go initProtocol no longer has the modelled shape (timer armed, then the goroutine that selects and runs the initializer, select on result/timer): " + c["err"], brief(c), shape=True)
     if cases:
         try:
             bad = eval_cases(short, run.tier)
